@@ -14,6 +14,7 @@ def check(ctx):
         "finished already; R5 parked signals are visible to the collector (known finding K2); R6 CommitCollect / DropCollect "
         "go through force_send, which parks instead of dropping, and a parked command that meets a full ring on replay is put "
         "back (a lost finish signal retains its trace's entry for ever). R7 StartCollect stays on the droppable send path (a parked start arrives after its commit was forgotten and its entry is never removed).")
+    ctx.explanation += (' Round 5: R2 the collect id is the result of one fetch_add on the process-wide counter itself (helpers inlined; no arithmetic, no thread-local origin); R6 commit_collect / drop_collect send their signal on every path.')
     ctx.not_decided = ("that retained state IS bounded after every history (the rules pin down who grows and who shrinks "
                        "each container and on which paths; counting entries over histories is a runtime quantity).")
     facts = ctx.facts("E")
